@@ -13,7 +13,7 @@ RULE = ("exhaustive: attempts 1..A x every outcome sequence of that length over 
         "4 classes, thorough: A=6 and 5 classes. Oracle: a reference loop written from the statement gives the number "
         "of inner invocations, the sleeps and the outcome (first ok result by identity / final attempt's exception "
         "object by identity); arguments must reach the inner method unchanged each time. Invalid configurations must "
-        "raise at construction; neighbouring valid ones must not. The same table is run over pymemcache's own exception hierarchy (MemcacheError, MemcacheClientError, MemcacheIllegalInputError, MemcacheServerError, MemcacheUnexpectedCloseError, MemcacheUnknownCommandError) and socket.timeout / ConnectionResetError / KeyError: no class is treated specially. Wrapped instances: three RetryingClients alive at once around different instances of one class whose operations are instance attributes (name sets differing from instance to instance), every offered operation called through every wrapper in both orders - the same reference decides, and dir() of the wrapper lists the operation. Non-trivial: >=2 invocations were needed or a filter "
+        "raise at construction; neighbouring valid ones must not. The same table is run over pymemcache's own exception hierarchy (MemcacheError, MemcacheClientError, MemcacheIllegalInputError, MemcacheServerError, MemcacheUnexpectedCloseError, MemcacheUnknownCommandError) and socket.timeout / ConnectionResetError / KeyError: no class is treated specially. A wrapped call that succeeds with an exception INSTANCE as its return value (of any of the classes, under every filter pair) has succeeded: returned unchanged, not retried. Wrapped instances: three RetryingClients alive at once around different instances of one class whose operations are instance attributes (name sets differing from instance to instance), every offered operation called through every wrapper in both orders - the same reference decides, and dir() of the wrapper lists the operation. Non-trivial: >=2 invocations were needed or a filter "
         "stopped a retry.")
 MANIFEST = {
     "category": "exploration",
@@ -64,6 +64,10 @@ class Inner:
         o = self.seq[i]
         if o == 0:
             return OKV
+        if o < 0:
+            # a successful call whose RESULT is an exception object (a cached failure, say): a value like any other
+            self.returned = CLASSES[-o - 1]("a value, not a failure")
+            return self.returned
         e = CLASSES[o - 1]("attempt %d" % i)
         self.raised.append(e)
         raise e
@@ -379,6 +383,59 @@ def check_lib(case):
     return nt, ["library-exceptions"] + labels
 
 
+# ---- results that are exception objects ---------------------------------------------------------------------------
+
+def returned_exception_cases(tier, seed):
+    ncls = 4
+    subs = _subsets(ncls)
+    pairs = [(rf, dn) for rf in subs for dn in subs if not set(rf) & set(dn)]
+    for attempts in (1, 2, 3):
+        for fails in itertools.product(range(1, ncls + 1), repeat=attempts - 1):
+            for ret in range(1, ncls + 1):
+                for pi, (rf, dn) in enumerate(pairs):
+                    yield (attempts, tuple(fails) + (-ret,), rf, dn, (pi + ret) % 3)
+
+
+def check_returned_exception(case):
+    """the wrapped call succeeds and its return value happens to be an exception instance: returned unchanged, no retry"""
+    attempts, seq, rf, dn, meth = case
+    kw = {}
+    if rf:
+        kw["retry_for"] = [CLASSES[j] for j in rf]
+    if dn:
+        kw["do_not_retry_for"] = [CLASSES[j] for j in dn]
+    saved = R.sleep
+    sleeps = []
+    R.sleep = sleeps.append
+    try:
+        inner = Inner(seq)
+        rc = R.RetryingClient(inner, attempts=attempts, retry_delay=0.5, **kw)
+        try:
+            got = ("ok", getattr(rc, METHODS[meth])("k"))
+        except AssertionError:
+            got = ("too-many-calls",)
+        except Exception as e:  # noqa: BLE001
+            got = ("exc", e)
+    finally:
+        R.sleep = saved
+    # reference: failures before the returning attempt are retried or not as usual; the returning attempt ends the call
+    fails = seq[:-1]
+    want_calls, want, _f = reference(attempts, tuple(fails) + (0,), rf, dn)
+    desc = "attempts=%d outcomes=%r retry_for=%r do_not_retry_for=%r" % (
+        attempts, [CLASSES[o - 1].__name__ for o in fails] + ["returns a %s instance" % CLASSES[-seq[-1] - 1].__name__],
+        [CLASSES[j].__name__ for j in rf], [CLASSES[j].__name__ for j in dn])
+    if len(inner.calls) != want_calls:
+        raise Violation(["returned-exception", "invocations"], "inner invoked %d times, expected %d: %s" % (len(inner.calls), want_calls, desc))
+    if want[0] == "ok":
+        if not (got[0] == "ok" and got[1] is getattr(inner, "returned", None)):
+            raise Violation(["returned-exception", "outcome"], "outcome %r, expected the returned object itself: %s" % (got, desc))
+    elif got[0] != "exc" or got[1] is not inner.raised[-1]:
+        raise Violation(["returned-exception", "outcome"], "outcome %r, expected the exception of attempt %d: %s" % (got, want_calls - 1, desc))
+    if sleeps != [0.5] * (want_calls - 1):
+        raise Violation(["returned-exception", "sleeps"], "sleeps %r, expected %r: %s" % (sleeps, [0.5] * (want_calls - 1), desc))
+    return True, ["returned-exception", "calls=%d" % want_calls]
+
+
 class DynInner:
     """a wrapped client whose operations are attributes of the INSTANCE (a stub, a namespace object, a client given an
     extra per-instance helper): which names exist differs from one instance of the class to the next"""
@@ -451,6 +508,7 @@ def check_instances(case):
 
 PARTS = [
     Part("library-exception-classes", "enum", check_lib, cases=lib_cases, exhaustive=True, distinct_by_construction=True),
+    Part("results-that-are-exceptions", "enum", check_returned_exception, cases=returned_exception_cases, exhaustive=True),
     Part("wrapped-instances", "enum", check_instances, cases=instance_cases, exhaustive=True),
     Part("decision-table", "enum", check, cases=cases, exhaustive=True, distinct_by_construction=True),
     Part("configurations", "enum", check_config, cases=config_cases, shards={"quick": 1, "thorough": 1}, exhaustive=True),
